@@ -28,7 +28,7 @@ SLIVER_TO_GRAPH = {
 # settable names deliberately not exercised through set_property, with the reason
 NOT_GENERATED = {
     'name': 'rename() is the operation for it', 'type': 'changing the type changes which rules apply',
-    'stitch_node': 'substrate-only marker', 'image_type': 'stored only together with image_ref (set as a pair)',
+    'image_type': 'stored only together with image_ref (set as a pair)',
     'image_ref': 'stored only together with image_type (set as a pair)',
     'capacity_delegations': 'delegations belong to C12/C13', 'label_delegations': 'delegations belong to C12/C13',
     'maintenance_info': 'value class belongs to C03', 'network_service_info': 'structural, not a scalar property',
@@ -65,7 +65,12 @@ def gen_value(rng, name, kind):
                 'service_endpoint'):
         if name == 'service_endpoint':
             return '10.0.0.%d' % rng.randint(1, 250)
-        return rng.choice(['some value', 'q"uote', '<&>', 'ünï', 'a b ', 'https://ctl.example/x?y=1&z=2'])
+        pool = ['some value', 'q"uote', '<&>', 'ünï', 'a b ', 'https://ctl.example/x?y=1&z=2']
+        if name in ('details', 'model', 'technology', 'allocation_constraints', 'controller_url'):
+            pool.append('')        # empty text is a legal value of a plain string property
+        return rng.choice(pool)
+    if name == 'stitch_node':
+        return rng.random() < 0.5
     if name == 'site':
         return rng.choice(W.SITES)
     if name == 'mirror_vlan':
@@ -89,7 +94,7 @@ def gen_value(rng, name, kind):
         t = {'mf_data': 'MeasurementData', 'user_data': 'UserData', 'layout_data': 'LayoutData'}[name]
         return {'_t': t, 'a': {'k': rng.randint(0, 9), 's': rng.choice(['v', 'q"', '<&>']), 'l': [1, 2][:rng.randint(0, 2)]}}
     if name == 'boot_script':
-        return rng.choice(['#!/bin/bash\necho hi', 'echo "q" && ls <a>'])
+        return rng.choice(['#!/bin/bash\necho hi', 'echo "q" && ls <a>', ''])
     if name == 'location':
         return {'_t': 'Location', 'a': {'postal': '100 Europa Dr., Chapel Hill, NC 27517'}}
     if name == 'gateway':
@@ -495,6 +500,35 @@ def compare_sliver(w, st, sliver, nid, path, depth=0):
             compare_sliver(w, st, got_k[k], k, path + '/' + str(st.name(k)), depth + 1)
 
 
+def sliver_children(sl):
+    out = {}
+    for attr, sub in (('attached_components_info', 'devices'), ('network_service_info', 'network_services'),
+                      ('interface_info', 'interfaces')):
+        info = getattr(sl, attr, None)
+        if info is not None:
+            for x in getattr(info, sub).values():
+                out[(attr, x.resource_name)] = x
+    return out
+
+
+def sliver_tree_diff(a, b, path):
+    """None if sliver b has the structure and property values of sliver a (children matched by kind and name)"""
+    pa, pb = props_dict_of(a), props_dict_of(b)
+    for k in sorted(set(pa) | set(pb)):
+        if pa.get(k) is None and pb.get(k) is None:
+            continue
+        if k not in pa or k not in pb or not jeq(pa[k], pb[k]):
+            return (k, '%s: property %s %r -> %r' % (path, k, pa.get(k), pb.get(k)))
+    ca, cb = sliver_children(a), sliver_children(b)
+    if sorted(ca) != sorted(cb):
+        return ('children', '%s: children %s -> %s' % (path, sorted(ca), sorted(cb)))
+    for k in sorted(ca):
+        d = sliver_tree_diff(ca[k], cb[k], path + '/' + str(k[1]))
+        if d:
+            return d
+    return None
+
+
 def dict_roundtrip(w, sliver, kind, path):
     from fim.graph.abc_property_graph import ABCPropertyGraph as G
     from fim.slivers.json import JSONSliver
@@ -512,6 +546,12 @@ def dict_roundtrip(w, sliver, kind, path):
     else:
         back = G.build_deep_link_sliver_from_dict(props=d)
     d2 = G.sliver_to_dict(back)
+    # independent of sliver_to_dict: walk the two sliver trees side by side
+    diff = sliver_tree_diff(sliver, back, path)
+    if diff:
+        w.flag('C02', 'sliver_dict_json', {'kind': kind, 'field': diff[0]},
+               '%s: sliver -> dict -> JSON -> sliver loses or changes %s' % (path, diff[1]))
+        return
 
     def norm(x):
         if isinstance(x, dict):
